@@ -6,9 +6,12 @@ import (
 	"encoding/hex"
 	"fmt"
 	"math/big"
+	"strconv"
 	"strings"
 
 	"github.com/libsv/go-bk/bec"
+	"github.com/libsv/go-bk/bip32"
+	"github.com/libsv/go-bk/chaincfg"
 	"github.com/libsv/go-bt/v2"
 	"github.com/libsv/go-bt/v2/bscript"
 	"golang.org/x/crypto/ripemd160" //nolint:staticcheck // the hash Bitcoin addresses are defined with
@@ -103,6 +106,7 @@ func init() {
 	}
 	pos := mon.Kind(p, "positive", c15JudgePos)
 	str := mon.Kind(p, "string", c15JudgeStr)
+	ext := mon.Kind(p, "extended-key", c15JudgeExtKey)
 
 	p.Run = func(c *mon.Ctx) {
 		// reference self-check: published vectors (Bitcoin wiki "Technical background of version 1 Bitcoin addresses"; genesis coinbase key)
@@ -151,6 +155,21 @@ func init() {
 			}
 			pos(c, &c15Pos{Hash: h})
 			pos(c, &c15Pos{Priv: r.Bytes(32)})
+		}
+
+		// ---- from an extended (BIP32) key: the library picks a random three-level path below the key, returns
+		// the path with the script; the script must be the canonical P2PKH script of the key AT THAT PATH
+		c.Phase("extended-keys")
+		{
+			nk := 24
+			if c.Thorough {
+				nk = 400
+			}
+			for i := 0; i < nk; i++ {
+				if c.Case(uint64(i)) {
+					ext(c, &c15Ext{Seed: c.Rand(uint64(i)).Bytes(16 + 16*(i%3)), Testnet: i%4 == 3, Calls: 24})
+				}
+			}
 		}
 
 		c.Phase("addresses-with-inner-runs-of-1") // key hashes solved so that the address text has a run of '1' characters (zero digits) of a chosen length at a chosen inner position
@@ -341,7 +360,8 @@ func init() {
 	p.Floor = func(a *mon.Agg) string {
 		for _, k := range []string{"pos:hash:mainnet", "pos:hash:testnet", "pos:key:mainnet", "pos:key:testnet", "pos:constructors-agree", "pos:script-to-hash-and-address",
 			"neg:class:substitute", "neg:class:insert", "neg:class:delete", "neg:class:transpose", "neg:class:wrong-version", "neg:class:payload-19-bytes", "neg:class:payload-21-bytes",
-			"neg:class:non-alphabet-char", "neg:class:leading-1-inserted", "neg:class:leading-1-removed", "neg:all-entry-points-rejected", "neg:identity-accepted-by-all"} {
+			"neg:class:non-alphabet-char", "neg:class:leading-1-inserted", "neg:class:leading-1-removed", "neg:all-entry-points-rejected", "neg:identity-accepted-by-all",
+			"ext:script-compared-with-the-key-at-the-returned-path", "ext:via:NewP2PKHFromBip32ExtKey", "ext:via:Tx.AddP2PKHOutputFromBip32ExtKey", "ext:second-level-odd", "ext:second-level-even"} {
 			if a.Cov[k] == 0 {
 				return "counter " + k + " is zero"
 			}
@@ -801,4 +821,110 @@ func c15Spell(h string) string {
 		return string(b)
 	}
 	return h
+}
+
+// c15Ext: a BIP32 master key (from Seed) handed Calls times to the two entry points that build a
+// P2PKH script below an extended key. The path is drawn by the library (crypto/rand); the oracle
+// judges each answer by itself: walk the RETURNED path with the key-derivation primitive
+// (go-bk's ExtendedKey.Child, level by level from the decimal numbers of the path), hash the key
+// found there, and compare with the script.
+type c15Ext struct {
+	Seed    mon.Hex `json:"seed"`
+	Testnet bool    `json:"testnet,omitempty"`
+	Calls   int     `json:"calls"`
+}
+
+func c15JudgeExtKey(c *mon.Ctx, in *c15Ext) {
+	net := &chaincfg.MainNet
+	if in.Testnet {
+		net = &chaincfg.TestNet
+	}
+	master, err := bip32.NewMaster(in.Seed, net)
+	if err != nil {
+		c.Count("ext:skipped:seed-unusable")
+		return
+	}
+	calls := in.Calls
+	if calls <= 0 || calls > 4096 {
+		calls = 24
+	}
+	for k := 0; k < calls; k++ {
+		c.Eval(1)
+		var script *bscript.Script
+		var path, via string
+		var cerr error
+		if k%2 == 0 {
+			via = "NewP2PKHFromBip32ExtKey"
+			if !c.Try("bscript.NewP2PKHFromBip32ExtKey", func() { script, path, cerr = bscript.NewP2PKHFromBip32ExtKey(master) }) {
+				return
+			}
+		} else {
+			via = "Tx.AddP2PKHOutputFromBip32ExtKey"
+			tx := bt.NewTx()
+			if !c.Try("bt.(*Tx).AddP2PKHOutputFromBip32ExtKey", func() { path, cerr = tx.AddP2PKHOutputFromBip32ExtKey(master, 1000+uint64(k)) }) {
+				return
+			}
+			if cerr == nil {
+				if len(tx.Outputs) != 1 || tx.Outputs[0] == nil || tx.Outputs[0].LockingScript == nil || tx.Outputs[0].Satoshis != 1000+uint64(k) {
+					c.Violationf("C15:ext-key:output-not-added", "AddP2PKHOutputFromBip32ExtKey returned path %q and no error, outputs: %d", path, len(tx.Outputs))
+					return
+				}
+				script = tx.Outputs[0].LockingScript
+			}
+		}
+		if cerr != nil {
+			c.Violationf("C15:ext-key:error:"+via, "%s failed for a master key from seed %x: %v", via, []byte(in.Seed), cerr)
+			return
+		}
+		c.Count("ext:via:" + via)
+		levels := strings.Split(path, "/")
+		key := master
+		ok := len(levels) > 0
+		for li, l := range levels {
+			n, perr := strconv.ParseUint(l, 10, 32)
+			if perr != nil {
+				ok = false
+				break
+			}
+			if li == 1 {
+				if n%2 == 1 {
+					c.Count("ext:second-level-odd")
+				} else {
+					c.Count("ext:second-level-even")
+				}
+			}
+			if key, perr = key.Child(uint32(n)); perr != nil {
+				ok = false
+				break
+			}
+		}
+		if !ok {
+			c.Count("ext:path-not-walkable(not judged)")
+			continue
+		}
+		pub, perr := key.ECPubKey()
+		if perr != nil {
+			c.Count("ext:path-not-walkable(not judged)")
+			continue
+		}
+		h := c15Hash160(pub.SerialiseCompressed())
+		want := c15Canonical(h)
+		c.Count("ext:script-compared-with-the-key-at-the-returned-path")
+		if script == nil || !bytes.Equal(*script, want) {
+			got := []byte(nil)
+			if script != nil {
+				got = *script
+			}
+			c.Violationf("C15:ext-key:script-is-not-for-the-key-at-the-returned-path:"+via, "%s(master from seed %x) returned path %q and script %x; the key at that path is %x, its canonical P2PKH script %x",
+				via, []byte(in.Seed), path, got, pub.SerialiseCompressed(), want)
+			continue
+		}
+		// the same key through the other constructors
+		var s2 *bscript.Script
+		var e2 error
+		if c.Try("bscript.NewP2PKHFromPubKeyBytes", func() { s2, e2 = bscript.NewP2PKHFromPubKeyBytes(pub.SerialiseCompressed()) }) && (e2 != nil || s2 == nil || !bytes.Equal(*s2, want)) {
+			c.Violationf("C15:ext-key:constructors-differ", "NewP2PKHFromPubKeyBytes(%x) = %v, %v; want %x", pub.SerialiseCompressed(), s2, e2, want)
+		}
+		c.Distinct(prng.HashBytes(in.Seed, []byte(path)))
+	}
 }
